@@ -276,7 +276,9 @@ def gen_request(rng, desc, depth=3):
 # ---------------------------------------------------------------------------
 # worlds
 
-MESSAGES = ["boom", "", "nö ✓", "line1\nline2", "x" * 40]
+HOSTILE = ["%", "%s", "%d", "%(x)s", "100%", "50% off", "%%", "% ", "%5", "{}", "{0}", "{x}", "{", "\\", "a\\nb\\", '"', "'", "q\"uo'te",
+           "line\nbreak", "cr\r\nlf", "nul\x00byte", "\U0001f600 astral", "lone \ud800 surrogate", "x" * 5000, "${x}", "%c", "\x7f", "\u2028"]
+MESSAGES = ["boom", "", "nö ✓", "line1\nline2", "x" * 40, "100% wrong %s %(x)s {0} {}", "back\\slash \"quoted\" \x00 \U0001f600"]
 import collections
 import collections.abc
 import types
@@ -308,6 +310,7 @@ EXT_FACTORIES = [
     lambda: collections.OrderedDict([("z", 1), ("a", {"deep": [True, 0.5, "s"]})]),
     lambda: types.MappingProxyType({}),
     lambda: {"tuple": (1, 2), "items": [{"a": 1}, {"b": [None]}]},
+    lambda: {"%s": "100% %(x)s {0}", "q\"uote": "back\\slash\n\x00 \U0001f600"},
 ]
 
 
@@ -494,7 +497,7 @@ class World:
 
         path = tuple(info.path)
         o = self.outcome(path, ftype)
-        self.calls.append((path, ftype, [n.loc[0] for n in info.nodes], o))
+        self.calls.append((path, ftype, [n.loc[0] for n in info.nodes if n.loc], o))
         if o[0] == "raised":
             ext = EXT_FACTORIES[o[4]]()      # the object handed to the library; o[2] stays pristine
             if o[3] == 2:
